@@ -24,7 +24,7 @@ P = {
  "C15": ("exploration", "generated histories (1-3 earlier runs: completed, failed, interrupted, future/stream dropped midway, FnRefs and stream values kept alive into later runs, sequential walks) then a last run; long histories (256-319 repetitions, thorough 65600); oracle: differential, reused graph vs freshly built graph, identical trace and result", "§3 C15"),
  "C16": ("exploration", "model-based: generated builder call sequences (single and batch edge calls, both kinds, repeats, reversed pairs, self edges; to 12 functions, long ones of 300-800 calls, large node sets with hubs) + exhaustive over 3 functions, three builds; oracle: reachability model after every call and edge set after build", "§3 C16"),
  "C17": ("exploration", "exhaustive small DAGs x declarations + iteration-work families (CPU-time budget) + random (node type with a data-carrying enum, 128-bit integers; abandoned and lock-step walks), three builds; oracle: GraphInfo mirrors nodes/edges incl. Data, JSON and YAML round trips (== and structural), iter / iter_rev topological", "§3 C17"),
- "C18": ("exploration", "generated path-explosive families (complete, layered, diamond chains, disjoint parts, forest-by-count, data-edge re-convergence, reader + ladder, rejected back edge; increasing size, stop at first violation; thread-CPU-time budget; a build() that has used 20 s of CPU without returning is reported at once by the build watchdog, DESIGN 2.8b) + random; oracle: RankCalc visit counter (hook) <= n^2+n and data-access queries <= 4n^2+4n", "§3 C18"),
+ "C18": ("exploration", "generated path-explosive families (complete, layered, diamond chains, disjoint parts, forest-by-count, data-edge re-convergence, reader + ladder, rejected back edge; increasing size, stop at first violation; thread-CPU-time budget; a build() that has used 60 s of CPU without returning is reported at once by the build watchdog, DESIGN 2.8b) + random; oracle: RankCalc visit counter (hook) <= n^2+n and data-access queries <= 4n^2+4n", "§3 C18"),
  "C19": ("exploration", "generated caller programs from a grammar (API x function type incl. a borrowing one x future style incl. borrowing and combinator futures x error type x use incl. nested Send async blocks x feature set) decided by the type checker (cargo check), negative controls must be rejected; thorough: whole grammar + execution of the thread-moving programs", "§3 C19"),
  "C20": ("exploration", "generated pairs/triples (rarely 9-12) of simultaneous runs on one &FnGraph with an interleaved schedule (separate tasks incl. a poll of one run inside a poll of another, or one task / one tokio task), long overlaps (K = 2^8, 2^16 other runs during one run); oracle: non-interference differential (each run replayed alone with its projected actions gives the identical trace and result) + per-run oracles", "§3 C20"),
 }
